@@ -46,12 +46,12 @@ ALL_KINDS = ['word', 'word', 'atom', 'unk', 'unkarg', 'unkarg2', 'label', 'index
              'itemize', 'enumerate', 'itemlab', 'verb', 'verbatim', 'inline', 'display', 'tabular', 'proof',
              'theorem', 'tikz', 'usermac', 'usermac2', 'usermacopt', 'usermacoptonly', 'defmac', 'defbymac', 'latexname', 'texorpdf', 'framebox',
              'unkenv', 'figure', 'minipage', 'vanish', 'hspace', 'phantom', 'quad', 'newline', 'group',
-             'textbackslash', 'gls', 'glsentry', 'removed_ext', 'twice_ext', 'mathtext', 'footcite', 'accent', 'lstlisting',
+             'textbackslash', 'gls', 'glsentry', 'url', 'removed_ext', 'twice_ext', 'mathtext', 'footcite', 'accent', 'lstlisting',
              'includegraphics', 'emph', 'par', 'cref']
 
 ALL_PKGS = {'amsmath', 'amsthm', 'babel', 'biblatex', 'circuitikz', 'geometry', 'glossaries', 'graphicx',
             'hyperref', 'listings', 'mathtools', 'pgfplots', 'tikz', 'xcolor', 'xspace'}
-KIND_PKG = {'textcolor': 'xcolor', 'href': 'hyperref', 'texorpdf': 'hyperref', 'tikz': 'tikz',
+KIND_PKG = {'textcolor': 'xcolor', 'href': 'hyperref', 'url': 'hyperref', 'texorpdf': 'hyperref', 'tikz': 'tikz',
             'lstlisting': 'listings', 'gls': 'glossaries', 'glsentry': 'glossaries', 'footcite': 'biblatex', 'proof': 'amsthm',
             'includegraphics': 'graphicx', 'removed_ext': 'ext', 'twice_ext': 'ext', 'cref': 'cleveref'}
 PACK_CHOICES = ['*', '*', '*', '*', '', '', 'amsmath,amsthm', 'xcolor,hyperref,graphicx', 'biblatex,glossaries',
@@ -468,6 +468,36 @@ class Gen:
     def k_href(self):
         self.w('\\href{' + self.hid_txt() + '}')
         self.group(tag='declarg')
+
+    def k_url(self):
+        """\\url{..}: the address is copied; written with a comment and a continuation line inside the braces,
+        or through a user macro whose body holds the first part of the address"""
+        r = self.rnd
+        if r.random() < .4:
+            st = self.pos()
+            self.w('\\ysite{')
+            mark = len(self.cur)
+            self.path.append('userarg')
+            self.word()
+            self.path.pop()
+            self.w('}')
+            en = self.pos()
+            self.cur[mark:mark] = [(c, st + 1, en, 'g:macro-body') for c in 'ysitepre/']
+            return
+        self.w('\\url{')
+        self.path.append('declarg')
+        self.word()
+        for k in range(r.randint(1, 2)):
+            if r.random() < .5:
+                self.w('%' + self.hid_txt() + '\n' + r.choice(['', '  ', '\t']))
+            p = self.pos()
+            self.w('/')
+            self.cur.append(('/', p + 1, p + 1, 'w:url'))
+            if r.random() < .4:
+                self.w('%' + self.hid_txt() + '\n' + r.choice(['', '   ']))
+            self.word()
+        self.path.pop()
+        self.w('}')
 
     def k_texorpdf(self):
         self.w('\\texorpdfstring')
@@ -977,7 +1007,8 @@ PREAMBLE = ('\\newcommand{\\ymaca}[1]{ybodya #1 ybodyb}\n'
             '\\newcommand{\\ymacb}[2]{#2 ybodyc #1}\n'
             '\\newcommand{\\ymacc}[2][ydflt]{ybodyd #1 #2}\n'
             '\\newcommand{\\ymacd}[1][ydfltb]{ybodye #1}\n'
-            '\\newcommand{\\ydefm}[2]{\\newcommand{#1}{#2 ybodyf}}\n')
+            '\\newcommand{\\ydefm}[2]{\\newcommand{#1}{#2 ybodyf}}\n'
+            '\\newcommand{\\ysite}[1]{\\url{ysitepre/#1}}\n')
 CREFSED = ('s/\\\\cref{ylab}/ycrefig~(7)/g\n'
            's/\\\\Cref{ylab}/Ycrefig~(7)/g\n'
            's/\\\\cref{yl2}/ycreq (1) to (2)/g\n'
